@@ -232,6 +232,10 @@ def make_search(kind: str):
         return af.Drawer(name="fit", total_draws=6)
     if kind == "lbfgs":
         return af.LBFGS(name="fit", iterations_per_update=3)
+    if kind == "lbfgs_cap":
+        # iteration budget = a whole number of checkpoint intervals, used up before convergence: the last
+        # checkpoint already holds every iteration
+        return af.LBFGS(name="fit", iterations_per_update=2, maxiter=4)
     if kind == "dynesty":
         return af.DynestyStatic(name="fit", nlive=20, maxcall=260, iterations_per_update=100, number_of_cores=1)
     raise ValueError(kind)
